@@ -5,11 +5,15 @@ from concurrent.futures import ThreadPoolExecutor
 
 VERIF = os.path.dirname(os.path.abspath(__file__))
 REPO = os.environ.get('GLMX_REPO', '/repo')
-BUILD = os.path.join(VERIF, 'build')
+BUILD = os.path.join(VERIF, 'build') if REPO == '/repo' else os.path.join(VERIF, 'build', 'alt_' + hashlib.sha256(REPO.encode()).hexdigest()[:8])   # checks pointed at another tree (seed experiments, background runs) keep their own binary cache
 EVID = os.environ.get('GLMX_EVIDENCE_DIR') or os.path.join(VERIF, 'evidence')   # seed experiments and development overrides write to a scratch directory: evidence/ only ever holds runs of the registered check on /repo as it is
 REPLAY = os.path.join(VERIF, 'replay')
 
-BASE_FLAGS = ['-std=c++17', '-O2', '-ffp-contract=off', '-fno-fast-math', '-pthread', '-w', '-mno-mmx']   # -mno-mmx: g++ 12 otherwise emits movq %mm0 / movq2dq without emms in vectorised code, which poisons x87 long double arithmetic of the oracles
+_TRANSC = ['sin', 'cos', 'tan', 'asin', 'acos', 'atan', 'atan2', 'sinh', 'cosh', 'tanh', 'asinh', 'acosh', 'atanh', 'exp', 'exp2', 'expm1', 'log', 'log2', 'log10', 'log1p', 'pow', 'cbrt', 'hypot', 'sincos']
+# transcendental libm functions are never treated as builtins: g++ folds sinl(constant) at -O2 with MPFR (correctly rounded) but calls glibc at -O0, clang never folds,
+# so lattices that a driver builds from angles would otherwise differ between the builds that a differential check compares
+NO_BUILTIN = ['-fno-builtin-' + f + sfx for f in _TRANSC for sfx in ('', 'f', 'l')]
+BASE_FLAGS = ['-std=c++17', '-O2', '-ffp-contract=off', '-fno-fast-math', '-frounding-math', '-pthread', '-w', '-mno-mmx'] + NO_BUILTIN   # -frounding-math: g++ then never folds an inexact libm call (libstdc++ reaches them as __builtin_*, which -fno-builtin-* does not cover)   # -mno-mmx: g++ 12 otherwise emits movq %mm0 / movq2dq without emms in vectorised code, which poisons x87 long double arithmetic of the oracles
 ASSUME = ['IEEE-754 binary32/binary64 arithmetic in round-to-nearest (x86-64 SSE math)',
           'floating-point contraction pinned off (-ffp-contract=off); it is a compiler decision, not a GLM setting',
           'glibc libm and libquadmath behave as deterministic functions of their arguments',
